@@ -597,3 +597,7 @@ V('mt6-no-tag', ['C11'], 'yalafi/packages/amsmath.py', "        Macro(parms, '\\
 V('lt2-skip-space', ['C12'], P, "        while (buf.cur() and buf.is_space(buf.cur())\n                    and type(buf.cur()) is not defs.LanguageToken):\n            buf.next()\n", "        buf.skip_space()\n", 'LT2')
 V('sh3-repl-in-scan', ['C18'], SH, "    opts = tex2txt.Options(extr=inclusion_macros,\n", "    opts = tex2txt.Options(extr=inclusion_macros, repl=cmdline.replace,\n", 'SH3')
 V('em6-neutral-carry', ['C08'], MP, "                out = [defs.ActionToken(out[-1].pos)]\n        else:", "                out = [t for t in out] + [defs.ActionToken(out[-1].pos)]\n        else:", [])
+V('st1-verb-star', ['C08'], S, "        if start_arg < self.max_pos and latex[start_arg] == '*':\n            # starred form \\verb*|...|: same text\n            start_arg += 1\n", "", 'ST1')
+V('ls1-join-form-broken', ['C01', 'C13'], U, "    txt = ''\n    pos = []\n    for t in toks:\n        txt += t.txt\n        if t.pos_fix:\n            pos += [t.pos] * len(t.txt)\n        else:\n            pos += list(range(t.pos, t.pos + len(t.txt)))\n    return txt, pos",
+  "    parts = []\n    pos = []\n    for t in toks:\n        parts.append(t.txt)\n        n = len(t.txt)\n        pos.extend([t.pos] * n if t.pos_fix else range(t.pos, t.pos + n + 1))\n    return ''.join(parts), pos", 'LS1')
+V('mt2-section-flag', ['C11'], MP, "                out.append(defs.SpaceToken(out[-1].pos, ' ', pos_fix=True))\n                first_section = False", "                out.append(defs.SpaceToken(out[-1].pos, ' ', pos_fix=True))\n                first_section = True", 'MT2')
